@@ -91,7 +91,10 @@ def rule_update_root(rep, ds):
             return False
         a, b = [strip(x, casts=True) for x in kids(core)]
         names = {a.get('name'), b.get('name')}
-        return any(snap.get(n) == what for n in names) and p[param_idx] in names and core['op'] == '!='
+
+        def is_snap(x):      # a snapshot local, or the projection call written in place
+            return snap.get(x.get('name')) == what or is_call(x, 'b2p' if what == 'parent' else 'b2r')
+        return (is_snap(a) or is_snap(b)) and p[param_idx] in names and core['op'] == '!='
     ok1 = not_guarded_by(f, c, lambda core: cmp_of(core, 'parent', 0))
     rep.ob('R2-link-only-roots', 'DisjointSet::updateRoot/parent-is-self', ok1, f.loc(c),
            '' if ok1 else 'the linking CAS is reachable although the snapshot does not say parent == x (a non-root would be re-linked: cycles)')
